@@ -1,6 +1,7 @@
 import EdVerif.Ssa.Taint
 import EdVerif.Ssa.Prov
 import EdVerif.Ssa.Paths
+import EdVerif.Ssa.Wf
 /-!
 # Policy of the structural checks (hand-written, by *name* and *kind of site* only)
 
@@ -85,7 +86,6 @@ def globals : GlobalsPolicy where
     (nm! "basepointNafTablePrecomp", nm! "basepointNafTable")
   ]
   onceField := nm! "initOnce"
-  tableField := nm! "table"
   forbiddenImports := [goRawPkg, nm! "sync/atomic", nm! "reflect", nm! "runtime", nm! "C"]
   forbiddenTypePrefixes := [nm! "sync.", nm! "sync/atomic.", goRawPkgDot, nm! "reflect.", nm! "runtime."]
   allowedTypes := [nm! "sync.Once"]
